@@ -221,6 +221,69 @@ def real_runs(programs, rng, per_prog, snap="full"):
     return traces, obs, groups
 
 
+class DfsChooser(object):
+    """enumerates ALL schedules of the real solver through the hook: every choice point picks, by successive
+    decisions, which of the remaining items comes next; decision sequences are explored depth-first"""
+
+    def __init__(self):
+        self.prefix, self.arity, self.pos = [], [], 0
+
+    def reset(self):
+        self.pos = 0
+
+    def choose(self, n):
+        if n <= 1:
+            return 0
+        if self.pos < len(self.prefix):
+            c = self.prefix[self.pos]
+        else:
+            c = 0
+            self.prefix.append(0)
+            self.arity.append(n)
+        self.pos += 1
+        return c
+
+    def __call__(self, site, items):
+        items = list(items)
+        if site == "pop":
+            # only the element popped matters: one decision
+            k = self.choose(len(items))
+            chosen = items.pop(k)
+            return items + [chosen]
+        out = []
+        while items:
+            out.append(items.pop(self.choose(len(items))))
+        return out
+
+    def advance(self):
+        del self.prefix[self.pos:]
+        del self.arity[self.pos:]
+        while self.prefix:
+            if self.prefix[-1] + 1 < self.arity[-1]:
+                self.prefix[-1] += 1
+                return True
+            self.prefix.pop()
+            self.arity.pop()
+        return False
+
+
+def all_schedules(prog, x, forms, cfg0, cap):
+    """-> (set of canonical results, number of schedules run, exhausted?) of the real solver over every attempt order"""
+    ch = DfsChooser()
+    results, n = {}, 0
+    while True:
+        ch.reset()
+        tr, res, solver = runs.run_traced(forms, runs.make_config(cfg0), list(prog["request"]), prog["fieldNames"], user=None, chooser=ch,
+                                          mode="prog", snap="none", tid=0, body=None, max_events=2000, names=list(x["formOf"].keys()))
+        canon = json.dumps(res if res["abort"] == "" else {"abort": "some"}, sort_keys=True)
+        results.setdefault(canon, list(ch.prefix))
+        n += 1
+        if not ch.advance():
+            return results, n, True
+        if n >= cap:
+            return results, n, False
+
+
 def judge(work, programs, obs):
     """TLC evaluates Judge.tla on the observations -> {oid: [6 messages]}"""
     progs_mod.emit_module(programs, os.path.join(work, "GenProgs.tla"))
@@ -325,6 +388,25 @@ def run(pid, tier):
                     rep.violation("runs:prog%d:result differs between runs with the same inputs" % key[0],
                                   "results: %s" % list(canons)[:2], {"kind": "program-runs", "metas": [byid[t]["meta"] for t, _ in members]})
             cov["equal_input_groups_compared"] = ngroups
+            # every schedule of the REAL solver (depth-first over the hook's choice points) for the small programs
+            nprog = 12 if tier == "quick" else 150
+            cap = 150 if tier == "quick" else 3000
+            tot, exhausted = 0, 0
+            for prog in small[:nprog]:
+                x = progs_mod.expand(prog)
+                forms = progs_mod.build_forms(prog)
+                inputs = sorted(x["all_inputs"])
+                for rep_k in range(2):
+                    cfg0 = {i: rng.choice(["0", "1"]) for i in inputs if rng.random() < (1.0 if rep_k == 0 else 0.5)}
+                    results, n, done = all_schedules(prog, x, forms, cfg0, cap)
+                    tot += n
+                    exhausted += 1 if done else 0
+                    if len(results) > 1:
+                        rep.violation("schedules:prog%d:result depends on the attempt order" % prog["id"],
+                                      "%d different results over %d schedules: %s" % (len(results), n, list(results)[:2]),
+                                      {"kind": "program-schedules", "program": prog, "cfg0": cfg0, "decision_prefixes": list(results.values())[:2]})
+            cov["real_schedules_enumerated"] = tot
+            cov["program_inputs_with_all_schedules_exhausted"] = exhausted
         cov["traces_validated_against_impl"] = len(traces)
         cov["trace_events"] = sum(len(t["events"]) for t in traces)
         cov["trace_states"] = tstates
